@@ -224,3 +224,5 @@ def run(chk):
     # counters step), and the synthetic pre-start row that index 0 stands for is always there
     check_equiv(chk, "C12.R3", ALGOS, "Or", "__call__", OR_REF, "or-consults-every-scheduler", "schedulers combined with Or are each consulted on every date (no short-circuit), so counting schedulers keep counting")
     backtest_rules.process_data(chk, "C12")
+    backtest_rules.run_loop(chk, "C12")  # the schedulers are consulted on every date of a solvent strategy
+    backtest_rules.benchmark_random_rules(chk)
